@@ -141,7 +141,7 @@ pub fn shape_schema(n: i32, with_c: bool) -> Prog {
 
 /// all rule shapes in the fixed recursive context `p(x,y) <-- b(x,y); R`
 pub fn f_shape(thorough: bool) -> Vec<Unit> {
-    let n = 2;
+    let n = domain_n();
     let base = shape_schema(n, false);
     let o = ShapeOpts { max_atoms: 2, max_nonvar: if thorough { 2 } else { 1 }, exprs: thorough, rels: vec![0, 1, 2, 3], extras: true, all_heads: false };
     let mut bodies = vec![];
@@ -240,7 +240,7 @@ fn gen_atoms_after(p: &Prog, o: &ShapeOpts, atoms_left: usize, bound: &mut Vec<V
 // ------------------------------------------------------------------------------------------ F-scc
 /// dependency skeletons over derived binary relations r0..r{k-1} and the input relation e
 pub fn f_scc(thorough: bool) -> Vec<Unit> {
-    let n = 2;
+    let n = domain_n();
     let nder = 3usize;
     let max_rules = if thorough { 4 } else { 3 };
     // rule alphabet: (head, body) with body one of: [e], [rj], [rj, e], [e, rj], [rj, rk]
@@ -319,7 +319,7 @@ fn catom(rel: usize, args: Vec<Arg>, conds: Vec<Cond>) -> BodyItem { BodyItem::A
 
 /// lattice programs: every shipped lattice type usable as a column x the shapes of DESIGN.md C03
 pub fn f_lat(thorough: bool) -> Vec<Unit> {
-    let n = 2;
+    let n = domain_n();
     let mut units = vec![];
     for ty in LAT_TYPES.iter() {
         let tag = |s: &str| format!("lat-{}-{}", s, crate::print::lat_tag(ty));
@@ -397,7 +397,7 @@ pub fn f_lat(thorough: bool) -> Vec<Unit> {
 /// a lattice relation read with its lattice column bound by an earlier clause (an all-columns look-up): not a
 /// monotone use of the value, so outside C03, but C13 speaks about all programs
 pub fn f_latbound(_thorough: bool) -> Vec<Unit> {
-    let n = 2;
+    let n = domain_n();
     let mut units = vec![];
     for ty in LAT_TYPES.iter() {
         let t = crate::print::lat_tag(ty);
@@ -420,7 +420,7 @@ fn agg(res: Var, f: AggFn, bound: Option<Var>, rel: usize, args: Vec<Arg>) -> Bo
 /// looping stratum, a lattice, a relation that is itself an aggregate result, a relation that is
 /// head of two strata
 pub fn f_agg(thorough: bool) -> Vec<Unit> {
-    let n = 2;
+    let n = domain_n();
     let mut units = vec![];
     // relation ids
     const A: usize = 0; const B: usize = 1; const D: usize = 2; const R: usize = 3; const L: usize = 4; const H: usize = 5; const C: usize = 6; const C2: usize = 7; const NR: usize = 8;
@@ -770,7 +770,7 @@ fn sugar_atoms(p: &Prog, rels: &[usize], atoms_left: usize, max_sugar: usize, pr
 /// every sugar form alone and in pairs in every clause position of one- and two-clause bodies, plus negation,
 /// (nested) disjunction and multi-head decorations; each unit = sugared text + hand expansion
 pub fn f_sugar(thorough: bool) -> Vec<Unit> {
-    let n = 2;
+    let n = domain_n();
     let base = shape_schema(n, false);
     let (a, b, pp, q) = (0usize, 1usize, 2usize, 3usize);
     let mut bodies = vec![];
@@ -878,7 +878,7 @@ fn mi(v: Var) -> MacArg { MacArg::Ident(v) }
 /// invocations and head macros x call patterns x every spelling clash between call-site variables, macro-local
 /// identifiers, parameter names and the names the macro renamer itself generates
 pub fn f_macro(thorough: bool) -> Vec<Unit> {
-    let n = 2;
+    let n = domain_n();
     let base = shape_schema(n, false);
     let (a, b, pp, q) = (0usize, 1usize, 2usize, 3usize);
     // macro-local variables use ids 50.., call-site variables 0..
@@ -1114,7 +1114,18 @@ pub fn f_perm(thorough: bool) -> Vec<Unit> {
     out
 }
 
+thread_local! { static DOMAIN_N: std::cell::Cell<i32> = const { std::cell::Cell::new(2) }; }
+/// size of the constant domain the generators build their programs over (2; 3 for the `<family>-n3` families)
+fn domain_n() -> i32 { DOMAIN_N.with(|c| c.get()) }
+
 pub fn units(family: &str, thorough: bool) -> Vec<Unit> {
+    if let Some(base) = family.strip_suffix("-n3") {
+        DOMAIN_N.with(|c| c.set(3));
+        let mut us = units(base, thorough);
+        DOMAIN_N.with(|c| c.set(2));
+        for u in us.iter_mut() { u.tag = format!("{}[n=3]", u.tag); }
+        return us;
+    }
     match family {
         "shape" => f_shape(thorough),
         "scc" => f_scc(thorough),
